@@ -1107,6 +1107,13 @@ class Engine:
             if isinstance(a, NoneV) or isinstance(b, NoneV):
                 r = isinstance(a, NoneV) and isinstance(b, NoneV)
                 return z3.BoolVal(r if op == "Is" else not r)
+            if isinstance(a, Obj) and isinstance(b, Obj):       # identity of two tracked objects
+                if a is b:
+                    return z3.BoolVal(op == "Is")
+                if a.cls in IMMUTABLE_CLASSES and b.cls in IMMUTABLE_CLASSES:
+                    # two symbolic VALUE objects: callee contracts do not say whether an operand itself is handed back, so their identity is unknown
+                    raise Unsupported("identity test between two value objects whose contracts do not fix their identity")
+                return z3.BoolVal(op != "Is")
             raise Unsupported("is on non-None")
         if isinstance(a, Num) and isinstance(b, Num):
             if a.is_int and b.is_int:
